@@ -192,6 +192,18 @@ class Run:
         self.gate = gate
         self.proof_ok = ok and not gate and all(o["discharged"] for o in self.obligations) \
             and len(self.obligations) > 0
+        self.coqchk = None
+        if self.proof_ok and self.tier == "thorough":
+            # independent re-check of the compiled theorems and of everything they depend on
+            rc, out = sh("coqchk -silent -o -Q . V V.Props.%s" % self.pid, cwd=COQ, timeout=3600)
+            m = re.search(r"\* Axioms:(.*?)\n\s*\n", out + "\n\n", re.S)
+            axioms = (m.group(1).strip() if m else "?")
+            self.coqchk = {"rc": rc, "axioms": axioms[:1500],
+                           "type_in_type": "type-in-type: <none>" in out,
+                           "summary": out[out.find("CONTEXT SUMMARY"):][:1200]}
+            if rc != 0:
+                self.proof_ok = False
+                self.build_log += "\ncoqchk failed:\n" + out[-1500:]
         return self.proof_ok
 
     def failing_obligation(self):
@@ -346,6 +358,9 @@ class Run:
         cov["obligation_list"] = [{"name": o["name"], "discharged": o["discharged"],
                                    "assumptions": o["assumptions"][:400]} for o in self.obligations]
         cov["known_findings_hit"] = [k["id"] for k in self.known_hits]
+        if getattr(self, "coqchk", None):
+            cov["coqchk"] = self.coqchk
+            tb.append("coqchk -o (independent checker) axioms: %s" % self.coqchk["axioms"])
         if self.notes:
             cov["notes"] = self.notes
         ev = {"property_id": self.pid, "tier": self.tier, "seed": self.seed, "level": level,
